@@ -114,6 +114,29 @@ def run(ctx):
     ctx.cov['ioadapter_prerepair_seek_violates'] = r.violated
     if not r.violated:
         raise Inconclusive('IOAdapter witness variant unexpectedly holds (model vacuous?)')
+    # 1d. as-built model of the bit-level compositions (leaf / section / multi / zero, the ReadAtFull loop): every call judged on the
+    #     transition that makes it; the two out-of-contract corners are witnesses that the model reaches hangs when they exist
+    def rs(props, overlong='FALSE', neg='FALSE', maxn=12, a=2):
+        return ('SPECIFICATION Spec\nCONSTANTS\n NBytesA = %d\n NBytesB = 1\n MaxN = %d\n Overlong = %s\n NegOff = %s\nINVARIANT EndIsLen\n%sVIEW View\nCHECK_DEADLOCK FALSE\n'
+                % (a, maxn, overlong, neg, ''.join('PROPERTY %s\n' % x for x in props)))
+    r = ctx.tlc('ReaderStack', 'rs.cfg', cfg_text=rs(['StepOK'], maxn=18 if th else 12, a=3 if th else 2), name='mc_readerstack', timeout=3000)
+    ctx.tlc_expect_ok(r, 'ReaderStack as built')
+    ctx.cov['readerstack_calls_judged'] = r.generated
+    for nm, cfgt in (('overlong', rs(['OverlongTerminates'], overlong='TRUE')), ('negoff', rs(['NegOffProgress'], neg='TRUE'))):
+        r = ctx.tlc('ReaderStack', 'rsw.cfg', cfg_text=cfgt, name='mc_readerstack_witness_' + nm, count=False)
+        ctx.cov['readerstack_out_of_contract_%s_hangs' % nm] = r.violated
+        if not r.violated:
+            raise Inconclusive('ReaderStack witness %s unexpectedly holds (model vacuous?)' % nm)
+    # 1e. as-built model of bitio.Buffer judged by the same queue requirement (BufOpWhy) that judges recorded histories of the real one
+    def bb(bug, mw):
+        return ('SPECIFICATION Spec\nCONSTANTS\n MaxWritten = %d\n WriteNs = {0, 1, 3, 8, 9}\n ReadNs = {0, 1, 3, 8, 9, 20}\n BitsBug = %s\nINVARIANT CallsOK\nINVARIANT Refines\nCHECK_DEADLOCK FALSE\n'
+                % (mw, bug))
+    r = ctx.tlc('BitBuffer', 'bb.cfg', cfg_text=bb('FALSE', 27 if th else 20), name='mc_bitbuffer', timeout=3000)
+    ctx.tlc_expect_ok(r, 'BitBuffer as built')
+    r = ctx.tlc('BitBuffer', 'bbw.cfg', cfg_text=bb('TRUE', 12), name='mc_bitbuffer_witness', count=False)
+    ctx.cov['bitbuffer_prerepair_bits_violates'] = r.violated
+    if not r.violated:
+        raise Inconclusive('BitBuffer witness variant unexpectedly holds (model vacuous?)')
     # 2. GEN: every small composition x history
     cases = []
     g = ctx.tlc('BitIOGen', 'g.cfg', cfg_text=gen_cfg(2, th, not th), name='gen_bitio', timeout=3000)
@@ -138,19 +161,22 @@ def run(ctx):
     wp = os.path.join(ctx.build, 'write_events.ndjson')
     ctx.run([binp, 'write', str(20000 if th else 3000), wp], check=True, timeout=600)
     wevs = vlib.read_ndjson(wp)
+    bp = os.path.join(ctx.build, 'buffer_events.ndjson')
+    ctx.run([binp, 'buffer', str(4000 if th else 600), bp], check=True, timeout=600)
+    bevs = vlib.read_ndjson(bp)
     sp = os.path.join(ctx.build, 'stack_events.ndjson')
     ctx.run([binp, 'stack', str(3000 if th else 400), sp], check=True, timeout=900)
     sevs = vlib.read_ndjson(sp)
-    allev = evs + wevs + sevs
+    allev = evs + wevs + sevs + bevs
     for i, e in enumerate(allev):
         if e['panic']:
             top = e['panic'].split('\n')[0][:160]
-            sig = 'bitio.crash@%s' % ('writer' if e['kind'] == 'write' else '+'.join(sorted(kinds(e['term']))))
-            ctx.finding(sig, '%s: %s' % (shape(e['term']) if e['kind'] != 'write' else 'writer', top), dict(term=e['term'], panic=e['panic'][:2000]))
+            sig = 'bitio.crash@%s' % ('writer' if e['kind'] == 'write' else 'buffer' if e['kind'] == 'buffer' else '+'.join(sorted(kinds(e['term']))))
+            ctx.finding(sig, '%s: %s' % (shape(e['term']) if e['kind'] not in ('write', 'buffer') else e['kind'], top), dict(term=e['term'], panic=e['panic'][:2000]))
     rej = tv(ctx, allev, 'tv_bitio')
     ctx.cov['traces_validated_against_impl'] += len(allev)
-    ctx.cov['evaluations'] += sum(len(e['ops']) for e in evs) + len(wevs)
-    ctx.cov['bitio'] = dict(gen_cases=gen_n, random_cases=len(evs) - gen_n, writer_cases=len(wevs), calls=sum(len(e['ops']) for e in evs),
+    ctx.cov['evaluations'] += sum(len(e['ops']) for e in evs) + len(wevs) + sum(len(e['bops']) for e in bevs)
+    ctx.cov['bitio'] = dict(gen_cases=gen_n, random_cases=len(evs) - gen_n, writer_cases=len(wevs), buffer_histories=len(bevs), buffer_calls=sum(len(e['bops']) for e in bevs), long_stream_cases=sum(1 for e in evs[gen_n:] if sum(o['k'] * o['u'] for o in e['ops'] if o['op'] in ('read', 'readfull')) > 2048), calls=sum(len(e['ops']) for e in evs),
                             reader_kinds=sorted(set().union(*[kinds(e['term']) for e in evs])), openfile_windows=len(sevs))
     nt = set()
     for e in evs:
@@ -161,6 +187,11 @@ def run(ctx):
         e = allev[i]
         if e['kind'] == 'write':
             ctx.finding('bitio.' + sig, 'writer chunks %s' % [len(c) for c in e['chunks']], e)
+            continue
+        if e['kind'] == 'buffer':
+            o = e['bops'][opi - 1] if opi else {}
+            ctx.finding('bitio.' + sig, 'bitio.Buffer history of %d calls; call %d: %s(n=%s) -> k=%s eof=%s res=%s' % (len(e['bops']), opi, o.get('op'), o.get('n'), o.get('k'), o.get('eof'), o.get('res')),
+                        dict(bops=e['bops'][:opi]))
             continue
         if e['kind'] == 'window':
             ctx.finding('bitio.' + sig, 'opened 1.5 MiB file, tobytes[%d:%d]' % (e['a'], e['b']), dict(a=e['a'], b=e['b']))
